@@ -35,7 +35,7 @@ CONFIG = {
                   "pretty_repaired_depth_bounded (<= 1 + 6 * (data nesting + cap) for every tree), pretty_repaired_deferred_bounded "
                   "(the own tree of every deferred blank node, same bound), pretty_cap_present "
                   "(decided on the constant regenerated from _pretty.rs on every run), pretty_chain_bounded. "
-                  "Differential (not proof): that one active call costs one stack frame - 60 sites run the real operations "
+                  "Differential (not proof): that one active call costs one stack frame - 63 sites run the real operations "
                   "in child processes on std::thread::Builder::stack_size(2 MiB) at 2*10^5 (quick) / 10^3..10^6 (thorough) "
                   "elements, dev profile (release additionally in the thorough tier); the stack high-water mark at 100, 400 "
                   "and 1600 elements must show the model's growth (constant vs >= 16 bytes per element over both increments).",
@@ -80,7 +80,7 @@ CONFIG = {
     ],
     "native_ok": [],
     "trivial_re": r"^site=\S+$",
-    "rule": "one request per (site, size, profile): 60 sites = every matching iterator of inmem with the closure matcher on "
+    "rule": "one request per (site, size, profile): 63 sites = every matching iterator of inmem with the closure matcher on "
             "every non-constant position (first / middle / last / graph name), the Fast* index orders, std Filter, "
             "n-constant slice matchers, remove_matching / retain_matching, N-Triples / N-Quads / Turtle / TriG / RDF-XML / "
             "JSON-LD serialisation (streaming and pretty; literals with n escapes; n statements / objects / subjects / "
